@@ -104,7 +104,15 @@ func (r *verifRecorder) take() []VEvent {
 const VerifGCKey = "nginx-ingress/globalconfiguration"
 
 // VerifCtlNew builds the controller with the same class, validators and feature flags as VerifNewArb.
-func VerifCtlNew(cnf *configs.Configurator, class string, tlsPassthrough, certManager bool, anns map[string]int) *VerifCtl {
+// VerifWatched: the namespaces of a controller started with -watch-namespace: every namespace the histories and the probes
+// use, but not the controller's own namespace, where the GlobalConfiguration lives (it has an informer of its own).
+var VerifWatched = []string{"ns1", "a-b", "ns2", "wp", "pp"}
+
+func VerifCtlNew(cnf *configs.Configurator, class string, tlsPassthrough, certManager bool, anns map[string]int, watchSome bool) *VerifCtl {
+	watched := []string{""}
+	if watchSome {
+		watched = VerifWatched
+	}
 	rec := &verifRecorder{}
 	kube := fake.NewSimpleClientset()
 	conf := fake_v1.NewSimpleClientset()
@@ -115,8 +123,8 @@ func VerifCtlNew(cnf *configs.Configurator, class string, tlsPassthrough, certMa
 		LoggerContext:                configs.VerifC12Context(),
 		NginxConfigurator:            cnf,
 		IngressClass:                 class,
-		Namespace:                    []string{""},
-		SecretNamespace:              []string{""},
+		Namespace:                    watched,
+		SecretNamespace:              watched,
 		ControllerNamespace:          "nginx-ingress",
 		AreCustomResourcesEnabled:    true,
 		ReportIngressStatus:          true,
@@ -137,8 +145,20 @@ func VerifCtlNew(cnf *configs.Configurator, class string, tlsPassthrough, certMa
 		lbc: lbc, rec: rec, conf: conf, kube: kube}
 }
 
-func (v *VerifCtl) store(kind string) (cache.Store, kind, error) {
-	nsi := v.lbc.namespacedInformers[""]
+// nsi is the informer set of the namespace (the one set when all namespaces are watched)
+func (v *VerifCtl) nsi(ns string) *namespacedInformer {
+	if n := v.lbc.getNamespacedInformer(ns); n != nil {
+		return n
+	}
+	panic("harness: namespace " + ns + " is not watched")
+}
+
+func (v *VerifCtl) store(kind, key string) (cache.Store, kind, error) {
+	ns, _, _ := cache.SplitMetaNamespaceKey(key)
+	if kind == "gc" {
+		return v.lbc.globalConfigurationLister, globalConfiguration, nil
+	}
+	nsi := v.nsi(ns)
 	switch kind {
 	case "ing":
 		return nsi.ingressLister.Store, ingress, nil
@@ -266,7 +286,7 @@ func (v *VerifCtl) probe(kindName, key string, old interface{}, existed bool, ob
 // real lbc.sync on the corresponding task with an empty work queue.  It returns the Events recorded
 // and the status writes issued during that sync.
 func (v *VerifCtl) Apply(kindName, key string, obj interface{}) (evs []VEvent, writes []VStatusWrite, verr VErr, err error) {
-	s, k, err := v.store(kindName)
+	s, k, err := v.store(kindName, key)
 	if err != nil {
 		return nil, nil, verr, err
 	}
@@ -414,7 +434,6 @@ var VerifPolicies = []VPolicy{{Key: "ns1/pol-own", Class: ""}, {Key: "ns1/pol-fo
 // that has been running; the Event list honours the involvedObject field selector.  It returns the status
 // writes issued by the callback.
 func (v *VerifCtl) Leader() []VStatusWrite {
-	nsi := v.lbc.namespacedInformers[""]
 	n := 0
 	addEvent := func(kind string, m *meta_v1.ObjectMeta) {
 		n++
@@ -425,14 +444,16 @@ func (v *VerifCtl) Leader() []VStatusWrite {
 			Message: fmt.Sprintf("Configuration for %s/%s was added or updated", m.Namespace, m.Name),
 		})
 	}
-	for _, o := range nsi.virtualServerLister.List() {
-		addEvent("VirtualServer", &o.(*conf_v1.VirtualServer).ObjectMeta)
-	}
-	for _, o := range nsi.virtualServerRouteLister.List() {
-		addEvent("VirtualServerRoute", &o.(*conf_v1.VirtualServerRoute).ObjectMeta)
-	}
-	for _, o := range nsi.transportServerLister.List() {
-		addEvent("TransportServer", &o.(*conf_v1.TransportServer).ObjectMeta)
+	for _, nsi := range v.lbc.namespacedInformers {
+		for _, o := range nsi.virtualServerLister.List() {
+			addEvent("VirtualServer", &o.(*conf_v1.VirtualServer).ObjectMeta)
+		}
+		for _, o := range nsi.virtualServerRouteLister.List() {
+			addEvent("VirtualServerRoute", &o.(*conf_v1.VirtualServerRoute).ObjectMeta)
+		}
+		for _, o := range nsi.transportServerLister.List() {
+			addEvent("TransportServer", &o.(*conf_v1.TransportServer).ObjectMeta)
+		}
 	}
 	for _, p := range VerifPolicies {
 		ns, name, _ := cache.SplitMetaNamespaceKey(p.Key)
@@ -440,7 +461,7 @@ func (v *VerifCtl) Leader() []VStatusWrite {
 			ObjectMeta: meta_v1.ObjectMeta{Namespace: ns, Name: name, UID: types.UID("uid-" + name)},
 			Spec:       conf_v1.PolicySpec{IngressClass: p.Class, AccessControl: &conf_v1.AccessControl{Allow: []string{"10.0.0.0/8"}}},
 		}
-		_ = nsi.policyLister.Add(pol)
+		_ = v.nsi(ns).policyLister.Add(pol)
 	}
 	v.kube.PrependReactor("list", "events", func(action k8stesting.Action) (bool, runtime.Object, error) {
 		la, ok := action.(k8stesting.ListAction)
@@ -466,9 +487,11 @@ func (v *VerifCtl) Leader() []VStatusWrite {
 	// the address this controller publishes is known, and every Ingress of the cluster carries it in its status, whoever
 	// serves it (an address taken over from, or shared with, another controller)
 	v.lbc.statusUpdater.SaveStatusFromExternalStatus("203.0.113.7")
-	for _, o := range nsi.ingressLister.Store.List() {
-		if ing, ok := o.(*networking.Ingress); ok {
-			ing.Status.LoadBalancer.Ingress = []networking.IngressLoadBalancerIngress{{IP: "203.0.113.7"}}
+	for _, nsi := range v.lbc.namespacedInformers {
+		for _, o := range nsi.ingressLister.Store.List() {
+			if ing, ok := o.(*networking.Ingress); ok {
+				ing.Status.LoadBalancer.Ingress = []networking.IngressLoadBalancerIngress{{IP: "203.0.113.7"}}
+			}
 		}
 	}
 	v.kube.ClearActions()
@@ -521,7 +544,7 @@ func verifSplitVS(class string, w1, w2 int, gen int64) *conf_v1.VirtualServer {
 // WeightProbe edits only the split weights of a VirtualServer that belongs to another controller.
 func (v *VerifCtl) WeightProbe() VWeightProbe {
 	old, cur := verifSplitVS("other", 50, 50, 1), verifSplitVS("other", 60, 40, 2)
-	nsi := v.lbc.namespacedInformers[""]
+	nsi := v.nsi("wp")
 	_ = nsi.virtualServerLister.Add(cur)
 	v.drainQueue()
 	v.rec.take()
@@ -552,8 +575,12 @@ func (v *VerifCtl) WeightProbe() VWeightProbe {
 // the written status (the real informer replaces the cached object; whoever kept the old pointer keeps the old
 // status).  The resulting update event changes nothing but the status and is not delivered to the handlers.
 func (v *VerifCtl) writeBack(writes []VStatusWrite) {
-	nsi := v.lbc.namespacedInformers[""]
 	for _, w := range writes {
+		ns, _, _ := cache.SplitMetaNamespaceKey(w.Key)
+		nsi := v.lbc.getNamespacedInformer(ns)
+		if nsi == nil {
+			continue
+		}
 		switch o := w.obj.(type) {
 		case *conf_v1.VirtualServer:
 			if cur, ok, _ := nsi.virtualServerLister.GetByKey(w.Key); ok {
@@ -582,7 +609,7 @@ func (v *VerifCtl) writeBack(writes []VStatusWrite) {
 // handlers and lbc.sync.  It returns whether the Policy and the VirtualServer could be set up (the caller reads
 // the rendered VirtualServer file before and after from its manager).
 func (v *VerifCtl) PolicyProbe(step int) error {
-	nsi := v.lbc.namespacedInformers[""]
+	nsi := v.nsi("pp")
 	pol := func(class string, gen int64) *conf_v1.Policy {
 		return &conf_v1.Policy{
 			ObjectMeta: meta_v1.ObjectMeta{Namespace: "pp", Name: "pol", UID: "uid-pp-pol", Generation: gen},
